@@ -1,0 +1,9 @@
+//go:build !verif
+
+// Package verifhook provides named delay points used by the runtime
+// verification harness. Without the `verif` build tag every function is an
+// empty inlinable no-op.
+package verifhook
+
+// Point marks an existing preemption point; no-op in normal builds.
+func Point(name string) {}
